@@ -922,6 +922,33 @@ fn polyops(rng: &mut Rng, iters: u64) {
             }
             // 2. polynomial from roots, evaluation, multipoint evaluation, roots_eval
             let na = 1 + (rng.next() as usize) % (if round % 2 == 0 { 12 } else { 70 });
+            // power-series quotient P / Q mod X^len for the lengths the crate uses (2^k + 1, k >= 2): every combination of a
+            // unit / general constant term of P and of Q (Q[0] a power of two, hence invertible modulo the odd n)
+            {
+                let len = (1usize << (2 + (rng.next() % 5) as u32)) + 1;
+                let mut pv: Vec<MInt> = (0..len).map(|_| elem(rng)).collect();
+                let mut qv: Vec<MInt> = (0..len).map(|_| elem(rng)).collect();
+                let p0 = rng.next() % 3; let q0 = rng.next() % 4;
+                if p0 == 0 { pv[0] = zn.one(); } else if p0 == 1 { pv[0] = zn.from_int(Uint::from(4u64)); }
+                qv[0] = match q0 { 0 => zn.one(), 1 => zn.from_int(Uint::from(2u64)), 2 => zn.from_int(Uint::from(4u64)), _ => zn.from_int(Uint::from(1u64 << (1 + rng.next() % 40))) };
+                let r = catch_unwind(AssertUnwindSafe(|| {
+                    let ring = PolyRing::new(&zn, 2 * len);
+                    let (pp, qq) = (Poly::new(&ring, pv.clone()), Poly::new(&ring, qv.clone()));
+                    Poly::div_mod_xn(&pp, &qq).c
+                }));
+                match r {
+                    Err(_) => fail("polyops", format!("Poly::div_mod_xn (n = {n}, length {len}, P[0] = {}, Q[0] = {}): panic", zn.to_int(pv[0]), zn.to_int(qv[0]))),
+                    Ok(z) => {
+                        for i in 0..len {
+                            let mut s = zn.zero();
+                            for k in 0..=i { s = zn.add(&s, &zn.mul(&qv[k], &z[i - k])); }
+                            if z.len() != len || zn.to_int(s) != zn.to_int(pv[i]) {
+                                fail("polyops", format!("Poly::div_mod_xn (n = {n}, length {len}, P[0] = {}, Q[0] = {}): coefficient {i} of Q * (P / Q) is {}, P has {}", zn.to_int(pv[0]), zn.to_int(qv[0]), zn.to_int(s), zn.to_int(pv[i])));
+                            }
+                        }
+                    }
+                }
+            }
             let nb = 1 + (rng.next() as usize) % (if round % 3 == 0 { 100 } else { 20 });
             let av: Vec<MInt> = (0..na).map(|_| elem(rng)).collect();
             let bv: Vec<MInt> = (0..nb).map(|_| elem(rng)).collect();
@@ -1598,9 +1625,156 @@ fn f21() {
     }
 }
 
+/// C12 probe (bounded stand-in: SIQS polynomial preparation is not under contract): whole Gray-code families of the
+/// polynomials SIQS would use for n (with and without the Knuth-Schroeppel multiplier), identity and exact root tables,
+/// through the probe module appended to the per-run copy of src/siqs.rs (replay/inject/siqs.rs)
+fn siqsroots(rng: &mut Rng, iters: u64) {
+    fn is_prime(n: u64) -> bool { yamaquasi::isprime64(n) }
+    fn next_prime(mut n: u64) -> u64 { n |= 1; while !is_prime(n) { n += 2; } n }
+    let mut inputs: Vec<Uint> = vec![];
+    // small semiprimes whose multiplier is a prime of the A-factor window, and plain ones
+    for n0 in [1099543084957u64, 68733098699, 4289413411, 1000036000099, 281493733684369] { inputs.push(Uint::from(n0)); }
+    let rounds = if iters < 1000 { 6 } else if iters < 50000 { 40 } else { 300 };
+    for _ in 0..rounds {
+        let bits = 16 + (rng.next() % 46) as u32; // each factor: 16..61 bits
+        let p = next_prime((1u64 << (bits - 1)) + rng.next() % (1u64 << (bits - 1)));
+        let b2 = (bits as i64 + (rng.next() % 5) as i64 - 2).clamp(16, 61) as u32;
+        let q = next_prime((1u64 << (b2 - 1)) + rng.next() % (1u64 << (b2 - 1)));
+        if p != q { inputs.push(Uint::from(p) * Uint::from(q)); }
+    }
+    for (i, n) in inputs.iter().enumerate() {
+        for use_k in [true, false] {
+            let n = *n;
+            let r = catch_unwind(AssertUnwindSafe(|| yamaquasi::siqs::verif_probe::family_check(n, use_k, if i < 5 { 64 } else { 24 }, 3000)));
+            match r {
+                Err(_) => fail("siqsroots", format!("SIQS polynomial family of n = {n} (multiplier {use_k}): panic")),
+                Ok(Err(e)) => fail("siqsroots", e),
+                Ok(Ok(_)) => {}
+            }
+        }
+    }
+}
+
+/// C11 probe (bounded stand-in): PackedRelation::pack / unpack round trip on structured relations: x up to 512 bits, any
+/// cofactor / cycle length, primes 2 and odd primes below 2^32 with exponents 1..300, the sign entry (-1, k) for every k
+/// (k even stands for +1 and may be dropped, k odd must come back as an odd power of -1). The decoded relation must satisfy the
+/// same congruence: same x, cofactor, cycle length, same prime powers, same parity of the sign exponent.
+fn packrel(rng: &mut Rng, iters: u64) {
+    use yamaquasi::relations::Relation;
+    let small = [2i64, 3, 5, 7, 11, 13, 127, 129 + 2, 16381, 16384 + 3, 65537, 2097143, 2147483647, 4294967291];
+    for it in 0..iters.max(200) {
+        let words = 1 + (rng.next() % 8) as usize;
+        let x = rng.uint(words);
+        let cofactor = match rng.next() % 4 { 0 => 1, 1 => rng.next(), 2 => rng.next() % 1000, _ => (rng.next() % (1 << 32)) * (rng.next() % (1 << 31)) };
+        let cyclelen = match rng.next() % 3 { 0 => 1, 1 => rng.next() % 20, _ => rng.next() };
+        let mut factors: Vec<(i64, u64)> = vec![];
+        let sign_k = match rng.next() % 6 { 0 => None, 1 => Some(1), 2 => Some(2), 3 => Some(3), 4 => Some(rng.next() % 9), _ => Some(2 * (1 + rng.next() % 4)) };
+        let sign_first = rng.next() % 4 != 0;
+        if let (Some(k), true) = (sign_k, sign_first) { factors.push((-1, k)); }
+        let nf = (rng.next() % 24) as usize;
+        for _ in 0..nf {
+            let p = if rng.next() % 2 == 0 { small[(rng.next() % small.len() as u64) as usize] } else { ((rng.next() % (1 << 32)) | 1) as i64 };
+            let p = if p == 1 { 3 } else { p };
+            let k = match rng.next() % 5 { 0 | 1 => 1, 2 => 2, 3 => 1 + rng.next() % 6, _ => 1 + rng.next() % 300 };
+            factors.push((p, k));
+        }
+        if let (Some(k), false) = (sign_k, sign_first) { factors.push((-1, k)); }
+        let r = Relation { x, cofactor, cyclelen, factors: factors.clone() };
+        let res = catch_unwind(AssertUnwindSafe(|| yamaquasi::relations::verif_probe::pack_roundtrip(r)));
+        let Ok(d) = res else { fail("packrel", format!("pack/unpack of x = {x}, cofactor {cofactor}, cycle length {cyclelen}, factors {factors:?}: panic (iteration {it})")) };
+        let norm = |fs: &[(i64, u64)]| -> (u64, Vec<(i64, u64)>) {
+            let mut sign = 0u64; let mut v = vec![];
+            for &(p, k) in fs { if p == -1 { sign = (sign + k) % 2; } else { v.push((p, k)); } }
+            (sign, v)
+        };
+        if d.x != x || d.cofactor != cofactor || d.cyclelen != cyclelen || norm(&d.factors) != norm(&factors) {
+            fail("packrel", format!("pack/unpack of x = {x}, cofactor {cofactor}, cycle length {cyclelen}, factors {factors:?} decodes to x = {}, cofactor {}, cycle length {}, factors {:?}", d.x, d.cofactor, d.cyclelen, d.factors));
+        }
+    }
+}
+
+/// C11 probe (bounded stand-in: final_step's exponent bookkeeping is not under contract): the final combination step on sets
+/// of valid complete relations modulo n = P Q (square roots from the known factors), with every sign pattern -- no sign
+/// entries, odd powers of -1, only even powers of -1, mixtures -- and repeated / even exponents: it must not panic and every
+/// divisor it returns must satisfy 1 < d < n and d | n
+fn finalstep(rng: &mut Rng, iters: u64) {
+    use yamaquasi::relations::{final_step, Relation};
+    use yamaquasi::fbase::FBase;
+    fn mulmod(a: u64, b: u64, m: u64) -> u64 { ((a as u128 * b as u128) % m as u128) as u64 }
+    fn powmod(mut b: u64, mut e: u64, m: u64) -> u64 { let mut r = 1 % m; b %= m; while e > 0 { if e & 1 == 1 { r = mulmod(r, b, m); } b = mulmod(b, b, m); e >>= 1; } r }
+    fn sqrt_p(a: u64, p: u64) -> Option<u64> {
+        let a = a % p;
+        if a == 0 { return Some(0); }
+        if powmod(a, (p - 1) / 2, p) != 1 { return None; }
+        let (mut q, mut s) = (p - 1, 0);
+        while q % 2 == 0 { q /= 2; s += 1; }
+        let mut z = 2; while powmod(z, (p - 1) / 2, p) != p - 1 { z += 1; }
+        let (mut m, mut c, mut tt, mut r) = (s, powmod(z, q, p), powmod(a, q, p), powmod(a, (q + 1) / 2, p));
+        while tt != 1 {
+            let mut i = 0; let mut t2 = tt; while t2 != 1 { t2 = mulmod(t2, t2, p); i += 1; }
+            let b = powmod(c, 1 << (m - i - 1), p);
+            m = i; c = mulmod(b, b, p); tt = mulmod(tt, c, p); r = mulmod(r, b, p);
+        }
+        Some(r)
+    }
+    let moduli = [(1000003u64, 1000033u64), (2147483647, 2147483629), (65537, 65539), (1048573, 1048609)];
+    let rounds = (iters / 20).clamp(8, 2000);
+    for it in 0..rounds {
+        let (pp, qq) = moduli[(it % 4) as usize];
+        let n64 = pp * qq;
+        let n = Uint::from(n64);
+        let fb = FBase::new64(n64);
+        let nprimes = fb.len().min(6 + (rng.next() % 10) as usize);
+        let sqrt_n = |y: u64| -> Option<u64> {
+            let (a, b) = (sqrt_p(y % pp, pp)?, sqrt_p(y % qq, qq)?);
+            let pinv = powmod(pp % qq, qq - 2, qq);
+            let k = mulmod((b + qq - a % qq) % qq, pinv, qq);
+            let x = ((a as u128 + pp as u128 * k as u128) % n64 as u128) as u64;
+            if mulmod(x, x, n64) == y % n64 { Some(x) } else { None }
+        };
+        // sign pattern of the whole set: 0 none, 1 odd powers, 2 even powers only, 3 mixture
+        let pattern = (it / 4) % 4;
+        let nrels = nprimes + 4 + (rng.next() % 12) as usize;
+        let mut rels: Vec<Relation> = vec![];
+        let mut guard = 0;
+        while rels.len() < nrels && guard < 100000 {
+            guard += 1;
+            let mut factors: Vec<(i64, u64)> = vec![];
+            let sign_k: u64 = match pattern { 0 => 0, 1 => (rng.next() % 2) * (1 + 2 * (rng.next() % 2)), 2 => 2 * (rng.next() % 3), _ => rng.next() % 5 };
+            let sign_first = rng.next() % 3 != 0;
+            if sign_k > 0 && sign_first { factors.push((-1, sign_k)); }
+            let mut y = 1u64;
+            for i in 0..nprimes {
+                let p = fb.p(i) as u64;
+                let k = match rng.next() % 6 { 0 | 1 | 2 => 0, 3 => 1, 4 => 2, _ => 1 + rng.next() % 4 };
+                if k > 0 { factors.push((p as i64, k)); y = mulmod(y, powmod(p, k, n64), n64); }
+            }
+            if sign_k > 0 && !sign_first { factors.push((-1, sign_k)); }
+            if sign_k % 2 == 1 { y = (n64 - y) % n64; }
+            if let Some(x) = sqrt_n(y) {
+                rels.push(Relation { x: Uint::from(x), cofactor: 1, cyclelen: 1, factors });
+            }
+        }
+        for r in &rels { if !r.verify(&n) { fail("finalstep", format!("internal: generated relation does not verify modulo {n64}: {r:?}")); } }
+        let rr = rels.clone();
+        let res = catch_unwind(AssertUnwindSafe(|| final_step(&n, &fb, &rr, yamaquasi::Verbosity::Silent)));
+        match res {
+            Err(_) => fail("finalstep", format!("final_step(n = {n64} = {pp} * {qq}, {} valid relations, sign pattern {pattern} (0 none / 1 odd / 2 even only / 3 mixed)): panic; relations: {:?}", rels.len(), rels.iter().take(6).map(|r| (r.x, r.factors.clone())).collect::<Vec<_>>())),
+            Ok(ds) => for d in ds {
+                if d <= Uint::ONE || d >= n || n % d != Uint::ZERO {
+                    fail("finalstep", format!("final_step(n = {n64}, {} valid relations, sign pattern {pattern}) returned {d}, not a proper divisor", rels.len()));
+                }
+            }
+        }
+    }
+}
+
 pub fn run(case: &str, rng: &mut Rng, iters: u64) -> bool {
     match case {
         "gcdbez" => gcdbez(rng, iters),
+        "finalstep" => finalstep(rng, iters),
+        "packrel" => packrel(rng, iters),
+        "siqsroots" => siqsroots(rng, iters),
         "pp1" => pp1_case(),
         "siqsfactors" => siqsfactors(rng, iters),
         "ecmstage2" => ecmstage2(rng, iters),
